@@ -38,6 +38,7 @@ FOREIGN = {
         (("rules.C04", "table_rules", "facts"), "a correct entry is read to EOF without a checksum error, a wrong one never"),
     ],
     "C02": [
+        (("rules.C12", "failclosed_rules", "facts"), "a refused compression level leaves the writer closed: the half-started entry (header already written and recorded) can never be part of a finished archive"),
         (("rules.shared_count", "exact_rule", "facts"), "copied and serialised bytes are moved with exact-length primitives (a single read()/write() leaves a zero-filled or missing tail under headers that announce the full size)"),
         (("rules.C15", "write_rules", "ctx"), "an entry flagged encrypted carries the 12-byte encryption header, whichever opener started it"),
         (("rules.C13", "sameparser_rules", "facts"), "an appended archive's old entries keep offsets relative to the stream: new_append applies the archive offset like the reader"),
@@ -47,6 +48,7 @@ FOREIGN = {
         (("rules.C18", "bits_rules", "facts"), "the DOS date/time words are the packed fields"),
     ],
     "C03": [
+        (("rules.C15", "open_rules", "facts"), "entries with a method this build cannot decode are refused when opened (never handed out to panic on the first read)"),
         (("rules.C10", "accessor_sibling_rules", "facts"), "is_dir() / is_file() answer by the last character, DOS separator included"),
         (("rules.C04", "table_rules", "facts"), "reading an entry returns its bytes or an error (CRC table)"),
         (("rules.C04", "wrap_rules", "facts"), "every decoding reader is wrapped in the CRC check"),
@@ -61,6 +63,8 @@ FOREIGN = {
         (("rules.C10", "stack_rules", "facts"), "the streaming reader builds the same CRC-checked decoder stack"),
     ],
     "C07": [
+        (("rules.C03", "central_rules", "ctx"), "entries of an archive with prepended data are located (the archive offset is applied once)"),
+        (("rules.C01", "codec_rules", "ctx"), "every central record is parsed at its place (field order of APPNOTE 4.3.12), so every entry is extracted"),
         (("rules.C19", "flag_decode_rules", "facts"), "files are created under the name the entry has: the streaming extractor decodes names by the flagged encoding like the central directory"),
         (("rules.C01", "mode_rules", "ctx"), "the mode an extractor applies is the recorded one: unix_mode() of a Unix-made entry is attrs >> 16, untouched by DOS attribute bits"),
         (("rules.C03", "acc_rules", "facts"), "unix_mode() reports the recorded mode"),
@@ -80,6 +84,7 @@ FOREIGN = {
         (("rules.C02", "narrow_rules", "ctx"), "no value is truncated into a 16/32-bit field"),
     ],
     "C10": [
+        (("rules.C13", "sameparser_rules", "facts"), "an appended archive is still a front-to-back stream: new entries overwrite the old central directory"),
         (("rules.C03", "acc_rules", "facts"), "the stream metadata accessors report the same fields as the seekable ones (name_raw is the stored bytes)"),
         (("rules.C19", "table_rules", "facts"), "both readers decode unflagged names through the one CP437 table, for every byte"),
         (XWALK, "both readers walk the local/central extra field on record boundaries"),
@@ -89,6 +94,7 @@ FOREIGN = {
         (("rules.C04", "table_rules", "facts"), "contents are CRC-checked the same way"),
     ],
     "C13": [
+        (("rules.C12", "refuse_before_close_rules", "facts"), "a call that is refused for its arguments (over-long name or comment) does not consume the raw flag of the entry before it: a copied / re-read entry is never re-patched"),
         (("rules.C03", "sentinel_rules", "facts"), "a ZIP64 base archive whose classic record holds real values can be opened for append"),
         (("rules.C02", "limit_rules", "facts"), "a base archive with a maximal (65535-byte) comment can be re-finished"),
         (LENF, "re-written central records of old entries announce exactly the extra bytes emitted"),
@@ -109,6 +115,8 @@ FOREIGN = {
         (("rules.C02", "flag_rules", "ctx"), "re-emitted names keep the flag that matches their bytes"),
     ],
     "C14": [
+        (("rules.C04", "wrap_rules", "facts"), "the raw accessor hands out the stored bytes without running them through the checksum or a decoder"),
+        (("rules.C12", "refuse_before_close_rules", "facts"), "a call that is refused for its arguments (over-long name or comment) does not consume the raw flag of the entry before it: a copied / re-read entry is never re-patched"),
         (("rules.C15", "open_rules", "facts"), "opening an unencrypted source with a (superfluous) password does not consume its first 12 bytes"),
         (("rules.C01", "patchoff_rules", "ctx"), "the local ZIP64 record of a copied large entry carries the sizes (written, or back-patched at the offset the writer computed)"),
         (("rules.C03", "central_rules", "ctx"), "the raw window handed to the copy is the entry's whole compressed stream (central size), for empty entries too"),
@@ -145,6 +153,7 @@ FOREIGN = {
         (("rules.C13", "raw_rules", "facts"), "append re-writes parsed entries untouched"),
     ],
     "C16": [
+        (("rules.C04", "wrap_rules", "facts"), "the decoder behind the AES reader consumes its whole input (plain constructor): every ciphertext byte is pulled through the MAC"),
         (("rules.C01", "method_rules", "ctx"), "the decoder behind the AES reader is the plain constructor: nothing changes how much ciphertext is pulled before end-of-data is reported"),
         (XWALK, "the AE-x record is found wherever it stands among the extra records"),
         (("rules.shared_zip64", "pair_rules", "ctx"), "AES entries with ZIP64 sizes: the two 64-bit values are consumed in APPNOTE order"),
